@@ -16,6 +16,7 @@
 import Model.Alias
 import Proofs.Alias
 import Proofs.AliasFamily
+import Proofs.FlowTie
 
 namespace Jl.C15
 open Jl Jl.Alias
@@ -137,5 +138,23 @@ theorem shared_prototype_would_leak :
     let w2 := AliasFamily.step w1 (.with_ 1 AliasFamily.Witness.kLate 7)
     AliasFamily.product w2 0 ≠ AliasFamily.product w1 0 :=
   AliasFamily.Witness.shared_child_extended_later_changes_parent.2.2
+
+
+/-! ### Who clones what, read from the source (Proofs/FlowTie) -/
+
+/-- As written today: `WithRow` stores a clone of the sub-template's prototype made at the call
+    (`withRow`), `CreateRowEmpty` hands out a clone of the prototype, `CreateRow` is the model's
+    `createRow` (every branch works on that clone), and `GetExporter` / `GetImporter` keep the
+    template itself, not a copy. -/
+theorem cloning_is_the_source :
+    (∀ (env : Value.Env) (t : Template.Tmpl) (name : Bytes) (fp : Format) (tp : Ty)
+        (sub : Template.Tmpl),
+      FlowTie.runBuilder env "WithRow" t name fp tp sub = some (Template.withRow env t name sub)) ∧
+    Gen.flowTable.createRowEmpty = .cloneOfProto ∧
+    (∀ (env : Value.Env) (t : Template.Tmpl) (v : Dyn),
+      FlowTie.createRowG Gen.flowTable.createRow env t v = some (Template.createRow env t v)) ∧
+    Gen.flowTable.getExporter = .self ∧ Gen.flowTable.getImporter = .self :=
+  ⟨FlowTie.withRow_is_withRow, FlowTie.createRowEmpty_as_modelled, FlowTie.createRow_is_createRow,
+   FlowTie.getExporter_as_modelled, FlowTie.getImporter_as_modelled⟩
 
 end Jl.C15
